@@ -79,6 +79,10 @@ def _strategy(draw):
     pfail = draw(st.sampled_from([0.2, 0.5, 0.8]))
     schedule = [1 if draw(st.integers(0, 99)) < pfail * 100 else 0 for _ in range(length)]
     nrewind = draw(st.integers(1, 5))
+    if draw(st.integers(0, 3)) == 0:
+        # trial-level outcomes inside the repository's own update_positions: 2 = every trial but the last permitted
+        # one is rejected (the step succeeds), 3 = every permitted trial is rejected (the step fails)
+        schedule = [draw(st.sampled_from([2, 2, 3])) if draw(st.integers(0, 3)) == 0 else b for b in schedule]
     if draw(st.integers(0, 7)) == 0:
         # one step that fails as often in a row as the walk tolerates (80 with the default settings), once or
         # twice, after a few successful steps; mostly with the smallest rewind depth, which keeps the attempt alive
@@ -219,13 +223,39 @@ def check(spec, ctx):
             if meta.nodes[later]["build"] and positioned(engine, mol_idx, later):
                 raise Violation("discarded_part_not_removed", f"{ctxt}: residue {later}, later in growth order, is still positioned")
         fail = schedule.pop(0) if schedule else 0
-        if fail:
+        if fail == 1:
             state["fails"] += 1
             return False
-        ok = orig_update(self, vector_bundle, current_node, prev_node)
+        if fail in (2, 3):
+            # the outcome is scripted one level down: the overlap test rejects the first maxiter (2) or all
+            # maxiter + 1 (3) trials of this step
+            state["trial_rejects"] = self.maxiter + (1 if fail == 3 else 0)
+            state["trial_level"] = state.get("trial_level", 0) + 1
+        try:
+            ok = orig_update(self, vector_bundle, current_node, prev_node)
+        finally:
+            state["trial_rejects"] = 0
+        placed = positioned(engine, mol_idx, current_node)
+        if ok and not placed:
+            raise Violation("success_without_position", f"{ctxt}: the step reports success but residue {current_node} has no position")
+        if not ok and placed:
+            raise Violation("failure_with_position", f"{ctxt}: the step reports failure but residue {current_node} was positioned")
+        if fail == 3:
+            if ok:
+                raise Inconclusive("a step whose trials were all rejected succeeded")
+            state["fails"] += 1
+            return False
         if not ok:
             raise Inconclusive("real placement failed in an empty box")
         return True
+
+    orig_overlap = RandomWalk._is_overlap
+
+    def scripted_overlap(self, point, node, *args, **kwargs):
+        if state.get("trial_rejects", 0) > 0:
+            state["trial_rejects"] -= 1
+            return True
+        return orig_overlap(self, point, node, *args, **kwargs)
 
     def wrapped_rewind(self, current_step):
         state["rewinds"] += 1
@@ -254,6 +284,7 @@ def check(spec, ctx):
         return out
 
     RandomWalk.update_positions = scripted_update
+    RandomWalk._is_overlap = scripted_overlap
     RandomWalk.run_molecule = wrapped_run
     RandomWalk._rewind = wrapped_rewind
     sphere = norm_sphere(300)
@@ -310,8 +341,11 @@ def check(spec, ctx):
                         raise Violation("positions_not_copied_back", f"molecule {mi} residue {node}")
     finally:
         RandomWalk.update_positions = orig_update
+        RandomWalk._is_overlap = orig_overlap
         RandomWalk.run_molecule = orig_run
         RandomWalk._rewind = orig_rewind
+    if state.get("trial_level"):
+        ctx.label("trial_level_schedule")
     if state["rewinds"]:
         ctx.label("rewind")
     if state["abandons"]:
